@@ -297,7 +297,7 @@ def event_cases(ctx: fw.Ctx, n: int) -> list[fw.Case]:
             case = corpus[i]
         else:
             cfg = {'id': r.choice(['me', 'me', 'kopf@pod-1', 'a']), 'prio': r.choice([0, 0, 1, 100, -3]),
-                   'life': r.choice([60, 60, 10, 1, 0]), 'name': r.choice(['default', 'default', 'other']),
+                   'life': r.choice([60, 60, 10, 1, 0, 86400, 90000, 172860]), 'name': r.choice(['default', 'default', 'other']),
                    'autoclean': r.random() < 0.85}
             now0 = 1000 * r.randrange(1, 5000) + 125 * r.randrange(8)
             status, mal = gen_status(r, cfg, now0)
@@ -380,6 +380,10 @@ def monitor_event(ctx: fw.Ctx, case: dict, res: dict) -> None:
         if [t[1] for t in touches] != [due]:
             ctx.fail('no self-touch (forced re-evaluation) at the earliest blocker deadline', data,
                      observed=[t[1] for t in touches], expected=[due], sig='wake-wrong')
+    for t in touches:
+        if cfg['life'] > 0 and (t[2] is None or t[2][1] != cfg['life'] or t[2][0] != cfg['prio'] or t[2][2] != t[1]):
+            ctx.fail('the record an operator writes for itself does not carry its configured priority / lifetime / instant', data,
+                     observed=t, expected=[cfg['prio'], cfg['life'], t[1]], sig='touch-record-wrong')
     if not view['blockers'] and touches:
         ctx.fail('self-touch without any blocker', data, observed=touches, sig='wake-spurious')
 
@@ -408,7 +412,7 @@ def drive_keepalive(life: int, jitter: int, prio: int = 7) -> dict:
     with pn.stubbed_patch_obj(patch_obj), pn.patched_randint(randint), vloop.running(loop):
         task = loop.spawn(peering.keepalive(namespace=None, resource=pn.RESOURCE, identity=peering.Identity('me'),
                                             settings=pn.make_settings(cfg)))
-        loop.run_until(lambda: len(touches) >= 3 or task.done(), 100.0 + 1000)
+        loop.run_until(lambda: len(touches) >= 3 or task.done(), 100.0 + 1000 + 3 * max(life, 0))
         n_before = len(touches)
         died = task.done()
         task.cancel()
@@ -420,7 +424,8 @@ def drive_keepalive(life: int, jitter: int, prio: int = 7) -> dict:
 
 def keepalive_cases(ctx: fw.Ctx) -> list[fw.Case]:
     out: list[fw.Case] = []
-    for life, jitter in itertools.product(range(0, 121), range(5, 11)):
+    # every lifetime 0..120, and lifetimes of a day and more (timedelta splits them into days + seconds)
+    for life, jitter in itertools.product(list(range(0, 121)) + [86399, 86400, 90000, 172800, 172860], range(5, 11)):
         res = drive_keepalive(life, jitter)
         data = {'lifetime': life, 'jitter': jitter, 'observed': res}
         ts = [t for t, _ in res['touches']]
@@ -436,6 +441,7 @@ def keepalive_cases(ctx: fw.Ctx) -> list[fw.Case]:
                   (fin[0][1] is None or len(fin[0][1]) == 3) else 'false')
         out.append(fw.Case(f'(ka_period {cq.cZ(life)} {cq.cZ(jitter)} * 1000 =? {cq.cZ(period)}) && {recs_ok} && {fin_ok}',
                            data, diag=f'ka_period {cq.cZ(life)} {cq.cZ(jitter)}'))
+        ctx.count('keepalive_lifetime', '>= 1 day' if life >= 86400 else '< 1 day')
         ctx.count('keepalive_period_vs_lifetime', 'shorter' if period < life * MS else 'equal' if period == life * MS else 'longer')
         # ---- monitors (property text): renewed before expiry; removed on exit
         if len(periods) != 1:
@@ -641,7 +647,7 @@ def run(ctx: fw.Ctx) -> int:
     ctx.differential('event', HEADER, ev, shard=150)
     ka = keepalive_cases(ctx)
     ctx.differential('keepalive', HEADER, ka, shard=150)
-    ctx.cov['exhaustive'] = {'keepalive': 'lifetime 0..120 x jitter 5..10 = 726 runs of the real keepalive()',
+    ctx.cov['exhaustive'] = {'keepalive': 'lifetime 0..120 and 86399, 86400, 90000, 172800, 172860 x jitter 5..10 = 756 runs of the real keepalive()',
                              'kacancel': 'cancellation on a 125 ms grid 0..3.25 s (every await: before the first step, request in '
                                          'flight, applied-unanswered, sleep, later touch, the shielded withdrawal) x PATCH latency '
                                          '(0/0, .25/.25, 0/.5, .5/0) x apply-then-fail / fail-before-apply of the 1st or 2nd PATCH '
